@@ -124,6 +124,14 @@ func (fr *frame) get(key ssa.Value) value {
 			return r
 		}
 		cell := zero(mustDeref(key.Type()))
+		if !fr.i.initializing && !globalInitialisable(key) {
+			// a variable of a package that is not a source root is never initialised (its init
+			// has no body): a nil error sentinel / nil pointer would silently change behaviour.
+			switch mustDeref(key.Type()).Underlying().(type) {
+			case *types.Interface, *types.Pointer, *types.Signature, *types.Map, *types.Chan:
+				cell = uninitGlobal{key.String()}
+			}
+		}
 		fr.i.globals[key] = &cell
 		return &cell
 	}
@@ -437,6 +445,32 @@ func visitInstr(fr *frame, instr ssa.Instruction) continuation {
 	// }
 
 	return kNext
+}
+
+// uninitGlobal marks the content of a global of a package without source (never initialised).
+// Storing into the variable replaces the marker; loading it aborts the path as unsupported.
+type uninitGlobal struct{ name string }
+
+var globalOKCache = map[*ssa.Global]bool{}
+
+// globalInitialisable reports whether g belongs to a package whose init function has a body
+// (a source root), or is on the short list of library variables that are safe as zero values.
+func globalInitialisable(g *ssa.Global) bool {
+	if ok, seen := globalOKCache[g]; seen {
+		return ok
+	}
+	ok := false
+	if g.Pkg != nil {
+		if f := g.Pkg.Func("init"); f != nil && f.Blocks != nil {
+			ok = true
+		}
+		switch g.Pkg.Pkg.Path() {
+		case "github.com/rpcpool/yellowstone-faithful/metrics", "os", "k8s.io/klog/v2", "log", "runtime", "testing", "flag", "time", "sync", "unicode", "reflect", "internal/godebug", "internal/poll", "syscall":
+			ok = true
+		}
+	}
+	globalOKCache[g] = ok
+	return ok
 }
 
 // visitInstrInit is visitInstr during package initialisation: an engine-level failure of one
